@@ -204,15 +204,16 @@ MEEM_VARIANTS = ['measured', 'measured-max575', 'measured-max925', 'measured-nan
 
 
 def sublattices(tier, seed):
-    alts = altitudes(tier, seed)
+    isa_alts = altitudes(tier, seed)
+    alts = altitudes(tier, seed, step=500.0 if tier == 'thorough' else 1000.0)
     cert = list(CERT_ALL) if tier == 'thorough' else CERT_QUICK
     subs = []
     forms = ['scalar', 'array1', 'mixed']
     subs.append(
         {
             'name': 'isa: altitude x call form',
-            'axes': {'h': alts + ALT_OVER, 'form': forms},
-            'cases': [{'k': 'isa', 'h': h, 'form': f} for h in alts + ALT_OVER for f in forms],
+            'axes': {'h': isa_alts + ALT_OVER, 'form': forms},
+            'cases': [{'k': 'isa', 'h': h, 'form': f} for h in isa_alts + ALT_OVER for f in forms],
         }
     )
     subs.append(
@@ -312,13 +313,17 @@ class _Acc:
             self.v.append(V(kind, detail, finding=finding))
 
     def cmp(self, kind, what, got, exp, rt=RT):
+        """`what` is a string or a zero-argument callable (evaluated only on failure)."""
         self.compared += 1
+        g = float(got)
         if exp == 0.0:
-            ok = float(got) == 0.0
+            ok = g == 0.0
         else:
-            ok = _close(got, exp, rt)
+            ok = g == g and abs(g - exp) <= rt * max(abs(g), abs(exp)) and abs(g) != INF
         if not ok:
-            self.add(kind, f'{what}: AEIC={float(got)!r} reference={float(exp)!r}')
+            if callable(what):
+                what = what()
+            self.add(kind, f'{what}: AEIC={g!r} reference={float(exp)!r}')
         return ok
 
     def sane(self, what, arr, finding=None):
@@ -452,13 +457,14 @@ def _hc_branch(ei, ff):
 
 def _check_hcco(acc, label, got, ffs, ei, ffcal, t, p):
     f_i = ffcal[0]
+    curve = R.hcco_curve(ei, ffcal, t, p)
     for j, ff in enumerate(ffs):
         if ff <= 0.0:
             continue
-        val, alt, brk = R.hcco(ff, ei, ffcal, t, p)
+        val, alt, brk = curve(ff)
         g = float(got[j])
         acc.compared += 1
-        if _close(g, val):
+        if g == g and abs(g - val) <= RT * max(abs(g), abs(val)) and abs(g) != INF:
             continue
         near = ff != brk and abs(ff - brk) <= 4 * math.ulp(brk)
         if near and _close(g, alt):
@@ -496,7 +502,7 @@ def _run_chain(case):
             acc.add('shape', f'FFM2 output shape {w.shape} for input {fin.shape}')
             continue
         for j in range(n_in):
-            acc.cmp('ffm2', f'Wf_SL(ff={fin[j]!r}, h={h!r}, M={m!r}, n_eng={n_eng})', w[j], R.ffm2_sls_fuel_flow(fin[j], p, t, m, n_eng or 2))
+            acc.cmp('ffm2', lambda j=j: f'Wf_SL(ff={fin[j]!r}, h={h!r}, M={m!r}, n_eng={n_eng})', w[j], R.ffm2_sls_fuel_flow(float(fin[j]), p, t, m, n_eng or 2))
         if n_eng is None:
             sls2 = w
     flows = flow_alphabet(cs)
@@ -509,6 +515,7 @@ def _run_chain(case):
     ffv = _tmv(ffcal)
 
     # -- thrust category: exact, exactly one, monotone in fuel flow
+    ref_cats = [R.thrust_category(x, ffcal) for x in flows]
     ok, cats = _call(acc, 'category-raised', 'get_thrust_cat_cruise', eu.get_thrust_cat_cruise, ff, ffv)
     cat_list = None
     if ok:
@@ -518,7 +525,7 @@ def _run_chain(case):
             cat_list = None
         else:
             for j in range(n):
-                exp = R.thrust_category(flows[j], ffcal)
+                exp = ref_cats[j]
                 acc.compared += 1
                 if cat_list[j] != exp:
                     acc.add('thrust-category', f'ff={flows[j]!r} ff_cal={ffcal} thresholds={R.thrust_thresholds(ffcal)} AEIC={cat_list[j]} reference={exp}')
@@ -527,7 +534,6 @@ def _run_chain(case):
                 acc.add('thrust-category', f'unknown category among {sorted(set(cat_list))}')
             elif any(b < a for a, b in zip(ranks, ranks[1:])):
                 acc.add('thrust-category-not-monotone', f'categories along increasing flow: {cat_list} ff_cal={ffcal}')
-    ref_cats = [R.thrust_category(x, ffcal) for x in flows]
 
     # -- NOx
     nox_ei = [s * x for x in cs['nox']]
@@ -541,17 +547,23 @@ def _run_chain(case):
                 acc.add('shape', f'{nm} shape {np.asarray(a).shape} for {n} flows')
             acc.sane(f'{nm} EI (h={h!r}, cs={case["cs"]})', a)
         if nox_arr.shape == (n,):
+            curve = R.bffm2_nox_curve(nox_ei, ffcal, t, p)
+            spec = {c: R.nox_speciation(c) for c in R.MODES}
+            a_no, a_no2, a_hono = (np.asarray(x, float) for x in (res.NOEI, res.NO2EI, res.HONOEI))
+            p_no, p_no2, p_hono = (np.asarray(x, float) for x in (res.noProp, res.no2Prop, res.honoProp))
             for j in range(n):
-                fno, fno2, fhono = R.nox_speciation(ref_cats[j])
-                for nm, arr, fr in (('noProp', res.noProp, fno), ('no2Prop', res.no2Prop, fno2), ('honoProp', res.honoProp, fhono)):
-                    acc.cmp('nox-speciation', f'{nm} at ff={flows[j]!r} (category {ref_cats[j]})', arr[j], fr, 1e-12)
+                fno, fno2, fhono = spec[ref_cats[j]]
+                w = lambda nm, j=j: (lambda: f'{nm} at ff={flows[j]!r} (category {ref_cats[j]}) h={h!r} EI={nox_ei} ff_cal={ffcal}')  # noqa: E731
+                acc.cmp('nox-speciation', w('noProp'), p_no[j], fno, 1e-12)
+                acc.cmp('nox-speciation', w('no2Prop'), p_no2[j], fno2, 1e-12)
+                acc.cmp('nox-speciation', w('honoProp'), p_hono[j], fhono, 1e-12)
                 if flows[j] > 0.0:
-                    exp = R.bffm2_nox(flows[j], nox_ei, ffcal, t, p)
-                    acc.cmp('nox', f'NOx EI at ff={flows[j]!r} h={h!r} EI={nox_ei} ff_cal={ffcal}', nox_arr[j], exp)
-                    acc.cmp('nox-speciation', f'NO EI at ff={flows[j]!r}', res.NOEI[j], exp * fno)
-                    acc.cmp('nox-speciation', f'NO2 EI at ff={flows[j]!r}', res.NO2EI[j], exp * fno2)
-                    acc.cmp('nox-speciation', f'HONO EI at ff={flows[j]!r}', res.HONOEI[j], exp * fhono)
-                tot = float(res.NOEI[j]) + float(res.NO2EI[j]) + float(res.HONOEI[j])
+                    exp = curve(flows[j])
+                    acc.cmp('nox', w('NOx EI'), nox_arr[j], exp)
+                    acc.cmp('nox-speciation', w('NO EI'), a_no[j], exp * fno)
+                    acc.cmp('nox-speciation', w('NO2 EI'), a_no2[j], exp * fno2)
+                    acc.cmp('nox-speciation', w('HONO EI'), a_hono[j], exp * fhono)
+                tot = float(a_no[j]) + float(a_no2[j]) + float(a_hono[j])
                 if math.isfinite(tot) and not _close(tot, nox_arr[j], 1e-12):
                     acc.add('nox-speciation', f'NO+NO2+HONO={tot!r} != NOx={float(nox_arr[j])!r} at ff={flows[j]!r}')
     if not np.array_equal(ff, ff_orig):
@@ -604,9 +616,9 @@ def _run_chain(case):
                 pmv, oc = np.asarray(r2[0], float), np.asarray(r2[1], float)
                 acc.sane('FOA3 PMvol', pmv)
                 for j in range(n):
-                    exp = R.foa3_pmvol(pct[j], float(hc_arr[j]))
-                    acc.cmp('pmvol-foa3', f'PMvol at thrust {pct[j]} HC={float(hc_arr[j])!r}', pmv[j], exp)
-                    acc.cmp('pmvol-foa3', f'OCic at thrust {pct[j]} HC={float(hc_arr[j])!r}', oc[j], exp)
+                    exp = R.foa3_pmvol(float(pct[j]), float(hc_arr[j]))
+                    acc.cmp('pmvol-foa3', lambda j=j: f'PMvol at thrust {pct[j]} HC={float(hc_arr[j])!r}', pmv[j], exp)
+                    acc.cmp('pmvol-foa3', lambda j=j: f'OCic at thrust {pct[j]} HC={float(hc_arr[j])!r}', oc[j], exp)
         ok, r3 = _call(acc, 'pmvol-raised', 'EI_PMvol_FuelFlow', S['pmvol'].EI_PMvol_FuelFlow, ff, cats)
         if ok:
             pmv, oc = np.asarray(r3[0], float), np.asarray(r3[1], float)
@@ -615,18 +627,19 @@ def _run_chain(case):
             else:
                 for j in range(n):
                     e1, e2 = R.fuelflow_pmvol(ref_cats[j])
-                    acc.cmp('pmvol-fuelflow', f'PMvol at ff={flows[j]!r} (category {ref_cats[j]})', pmv[j], e1, 1e-12)
-                    acc.cmp('pmvol-fuelflow', f'OCic at ff={flows[j]!r}', oc[j], e2, 1e-12)
+                    acc.cmp('pmvol-fuelflow', lambda j=j: f'PMvol at ff={flows[j]!r} (category {ref_cats[j]})', pmv[j], e1, 1e-12)
+                    acc.cmp('pmvol-fuelflow', lambda j=j: f'OCic at ff={flows[j]!r}', oc[j], e2, 1e-12)
 
     # -- thorough: each point alone must equal its value inside the vector
-    if S.get('tier') == 'thorough' and s == 1.0:
+    if S.get('tier') == 'thorough' and s == 1.0 and m == MACH[0]:
         for j in range(n):
             one = ff[j : j + 1].copy()
             t1, p1 = tv[:1], pv[:1]
             try:
                 a = S['nox'].BFFM2_EINOx(one, _tmv(nox_ei), ffv, t1, p1).NOxEI[0]
                 b = S['hcco'].EI_HCCO(one, _tmv(cs['hc']), ffv, t1, p1)[0]
-                c = str(getattr(list(eu.get_thrust_cat_cruise(one, ffv))[0], 'value', ''))
+                c0 = list(eu.get_thrust_cat_cruise(one, ffv))[0]
+                c = str(getattr(c0, 'value', c0))
             except Exception as ex:  # noqa: BLE001
                 acc.add('element-dependence', f'single-point call at ff={flows[j]!r} raised {type(ex).__name__}: {ex}')
                 continue
